@@ -6,6 +6,7 @@ partial cache of Drand/Beacon/Cache.lean. The cache-level statements `c03_distin
 All theorems quantify over the cryptographic oracle and over every finite list of events.
 -/
 import Drand.Beacon.Node
+import Gen.DKGRun
 import DrandProofs.C01
 import DrandProofs.C12Cache
 
@@ -46,6 +47,15 @@ theorem tie_aggregator_guards :
       ["!shouldStore", "err!=nil", "roundCache==nil", "roundCache.Len()<thr", "err!=nil",
        "err:=c.crypto.ThresholdScheme.VerifyRecovered(c.crypto.GetPub().Commit(),msg,finalSig);err!=nil",
        "c.tryAppend(ctx,lastBeacon,newBeacon)"] := by decide
+
+/-- "current group members" is what the vault holds when the partial is admitted and when the round is aggregated
+(`setInfo` events of the model). In the code the vault switches to the reshared group in the callback that
+`TransitionNewGroup` registers: it fires on the first stored round at or after `transition round − 1` (also when it
+was registered late) and assigns share, group and public polynomial together. -/
+theorem tie_live_group_switch :
+    Gen.tngTargetRound = "tRound - 1" ∧ Gen.tngCallbackSkipIf = "closed || b.Round < targetRound" ∧
+    Gen.tngCallbackThen.head? = some "h.crypto.SetInfo(newGroup, newShare)" ∧
+    Gen.vaultSetInfoAssigns = ["share = ks", "group = newGroup", "pub = newGroup.PublicKey.PubPoly(v.Scheme)"] := by decide
 
 /-! ### the partial cache keeps only what it was given -/
 
